@@ -316,7 +316,15 @@ func (api *API) mapEncodeStructFields(
 // usedKeys (members of embedded structs and of inlined structs without a key of their own live in the same map) and
 // returns an error if a key is occupied twice. What an inlined interface contributes depends on the value and is left
 // to setUniqueKey.
-func (api *API) collectStructKeys(structType reflect.Type, usedKeys map[string]struct{}) error {
+func (api *API) collectStructKeys(structType reflect.Type, usedKeys map[string]struct{}, visitedTypes ...reflect.Type) error {
+	// a struct that embeds or inlines itself: its keys would be used twice
+	for _, visitedType := range visitedTypes {
+		if visitedType == structType {
+			return ierrors.Errorf("struct %s is a member of itself", structType)
+		}
+	}
+	visitedTypes = append(visitedTypes, structType)
+
 	structFields, err := api.getStructFields(structType)
 	if err != nil {
 		return err
@@ -337,7 +345,7 @@ func (api *API) collectStructKeys(structType reflect.Type, usedKeys map[string]s
 		switch {
 		case sField.isEmbedded && !sField.settings.inlined:
 			if memberType.Kind() == reflect.Struct {
-				err = api.collectStructKeys(memberType, usedKeys)
+				err = api.collectStructKeys(memberType, usedKeys, visitedTypes...)
 			}
 		case sField.settings.ts.fieldKey != nil:
 			err = occupy(*sField.settings.ts.fieldKey)
@@ -346,7 +354,7 @@ func (api *API) collectStructKeys(structType reflect.Type, usedKeys map[string]s
 				err = occupy(keyType)
 			}
 			if err == nil {
-				err = api.collectStructKeys(memberType, usedKeys)
+				err = api.collectStructKeys(memberType, usedKeys, visitedTypes...)
 			}
 		case sField.settings.inlined && memberType.Kind() != reflect.Map:
 			// an inlined interface: depends on the value
